@@ -212,6 +212,15 @@ def oracle_c15(impl_lines):
         for l in cases[cid]:
             if l.startswith("> "):
                 last = l
+            if l.startswith("G ") and last.startswith("> V gptr "):
+                txt = bytes.fromhex(last.split()[3]) if last.split()[3] != "-" else b""
+                b0 = txt[0] if txt else 0
+                n = 1 if b0 < 0x80 else 2 if 0xC2 <= b0 <= 0xDF else 3 if 0xE0 <= b0 <= 0xEF else 0
+                if n and len(txt) >= n and all(0x80 <= c <= 0xBF for c in txt[1:n]):
+                    want = [18] + list(txt[:n]) + [0] * (3 - n)
+                    got = [int(x) for x in l.split()[1:5]]
+                    if got != want:
+                        fails.append((cid, "a glyph made from a pointer into the text %s holds %s; the text's first character alone gives %s, and both print the same bytes" % (txt.hex(), got, want)))
             if l.startswith("CMPX "):
                 fails.append((cid, "the answers of the comparison operators changed %s (%s)" % (l[5:], last[2:])))
             if l.startswith("CMP "):
